@@ -25,7 +25,7 @@ pub static MONITOR: Monitor = Monitor {
 fn plan(tier: Tier) -> Plan {
     match tier {
         Tier::Quick => Plan {
-            cases: 40_000,
+            cases: 30_000,
             time_cap_s: 40,
             case_timeout_s: 20,
             exhaustive: false,
@@ -69,6 +69,22 @@ fn run_case(seed: u64, idx: u64, _tier: Tier, out: &mut CaseOut) {
         let nops = rng.range(1, 5);
         input = gen::mutate(&mut rng, &input, nops, &gen::HOSTILE_DICT);
     }
+    if rng.chance(1, 15) {
+        // input without any markup (no '<', no '&'): plain words, spaces and line breaks,
+        // possibly behind a byte-order mark or other leading oddities
+        let mut tok = gen::Tokens::new();
+        let pr = Profile::full();
+        let mut t = String::new();
+        t.push_str(*rng.pick(&["", "", "\u{feff}", "\u{feff}\u{feff}", "\n", " ", "\u{0}", "\u{200b}"]));
+        for k in 0..rng.range(1, 12) {
+            if k > 0 {
+                t.push_str(*rng.pick(&[" ", " ", "\n", "  ", "\t", "\r\n", "\n\n"]));
+            }
+            t.push_str(&tok.unique(&mut rng, &pr));
+        }
+        input = t.into_bytes();
+        out.inc("markup_free_inputs");
+    }
     if crate::ast::has_tag(&doc, "table") {
         out.inc("docs_with_table");
     }
@@ -87,7 +103,7 @@ fn run_case(seed: u64, idx: u64, _tier: Tier, out: &mut CaseOut) {
     // must honour them alike
     if rng.chance(1, 6) {
         cfg.use_doc_css = true;
-        let sel = *rng.pick(&["body", "html", "body > div", "p", "div"]);
+        let sel = *rng.pick(&["body", "html", "body > div", "p", "div", "*", "html > body"]);
         let ws = *rng.pick(&["pre", "pre-wrap"]);
         if rng.chance(1, 2) {
             cfg.css.push((Origin::User, format!("{} {{ white-space: {}; }}", sel, ws)));
